@@ -397,3 +397,23 @@ package multiplex
 //@   loop 0 invariant fresh: sameSlice(d.pLens, acq(d.pLens)) && buflen(d.buf) == acq(buflen(d.buf)) && d.buf == acq(d.buf) && d.closed == acq(d.closed)
 //@   loop 0 invariant sameContents: (forall i int :: 0 <= i && i < len(d.pLens) ==> d.pLens[i] == acq(d.pLens[i])) && (forall k int :: 0 <= k && k < buflen(d.buf) ==> bufbyte(d.buf, k) == acq(bufbyte(d.buf, k)))
 //@   loop 0 invariant inv: d.buf != nil && buflen(d.buf) == sumInts(d.pLens) && (forall i int :: 0 <= i && i < len(d.pLens) ==> d.pLens[i] >= 0)
+
+// Write: a closed pipe refuses; a closing frame only sets closed; a data frame appends exactly one
+// queue entry holding the whole payload.
+//@ func (*datagramBufferedPipe).Write
+//@   requires d.rwCond != nil && f != nil && holdsNone()
+//@   ensures closedRefuses: err == io.ErrClosedPipe ==> toBeClosed && sameSlice(d.pLens, acq(d.pLens)) && buflen(d.buf) == acq(buflen(d.buf))
+//@   ensures closingFrame: err == nil && f.Closing != 0 ==> toBeClosed && d.closed && sameSlice(d.pLens, acq(d.pLens)) && buflen(d.buf) == acq(buflen(d.buf))
+//@   ensures oneEntry: err == nil && f.Closing == 0 ==> !toBeClosed && len(d.pLens) == len(acq(d.pLens)) + 1 && d.pLens[len(d.pLens)-1] == len(f.Payload) && buflen(d.buf) == acq(buflen(d.buf)) + len(f.Payload)
+//@   ensures earlierKept: err == nil && f.Closing == 0 ==> (forall j int :: 0 <= j && j < len(acq(d.pLens)) ==> d.pLens[j] == acq(d.pLens[j])) && (forall k int :: 0 <= k && k < acq(buflen(d.buf)) ==> bufbyte(d.buf, k) == acq(bufbyte(d.buf, k)))
+//@   ensures wholePayload: err == nil && f.Closing == 0 ==> (forall k int :: 0 <= k && k < len(f.Payload) ==> bufbyte(d.buf, acq(buflen(d.buf)) + k) == f.Payload[k])
+//@   flag noframe
+//@   loop 0 invariant lock: holdsOnly(d.rwCond.L) && d.rwCond != nil
+//@   loop 0 invariant fresh: sameSlice(d.pLens, acq(d.pLens)) && buflen(d.buf) == acq(buflen(d.buf)) && d.buf == acq(d.buf) && d.closed == acq(d.closed)
+//@   loop 0 invariant sameContents: (forall i int :: 0 <= i && i < len(d.pLens) ==> d.pLens[i] == acq(d.pLens[i])) && (forall k int :: 0 <= k && k < buflen(d.buf) ==> bufbyte(d.buf, k) == acq(bufbyte(d.buf, k)))
+//@   loop 0 invariant inv: d.buf != nil && buflen(d.buf) == sumInts(d.pLens) && (forall i int :: 0 <= i && i < len(d.pLens) ==> d.pLens[i] >= 0)
+
+//@ func (*datagramBufferedPipe).Close
+//@   requires d.rwCond != nil && holdsNone()
+//@   ensures d.closed && sameSlice(d.pLens, acq(d.pLens)) && buflen(d.buf) == acq(buflen(d.buf))
+//@   flag noframe
